@@ -91,6 +91,30 @@ theorem C06_project_export (o : ExportOpts) (m : VMap) (h : MapOK1 m)
     exportTree { o with incVersion := false } (project o m) = exportTree o m :=
   exportTree_project o m h hl
 
+/-- **Renumbering (`preserve_ids=False`).** Whatever ids the file contains (repeated, zero,
+negative, missing), after a parse without `preserve_ids` the ids of every kind — visgroups, groups,
+entities (worldspawn included), brushes, faces — are pairwise distinct and positive: the
+renumbering is injective per kind. (Model of `IDMan.get_id` including its search loop; the
+freshness of the id it returns is proved, not assumed.) -/
+theorem C06_renumber (t : List KV) (m : VMap) (h : parseTree false t = .ok m) : IdsInjective m := by
+  unfold parseTree at h
+  cases hr : parseRaw t with
+  | error e => simp [hr, Except.map] at h
+  | ok raw =>
+    simp only [hr, Except.map, Except.ok.injEq] at h
+    rw [← h]
+    exact assignIds_injective raw
+
+/-- … and with `preserve_ids=True` nothing is renumbered unless an id is the marker -1. -/
+theorem C06_preserve (m : VMap) (h : IdsOK m) :
+    assignIds true m = { m with spawn := fixLogical m.spawn, ents := m.ents.map fixLogical } :=
+  assignIds_preserve m h
+
+/-- `IDMan.get_id` returns an unused positive id (search loop bounded by the number of used ids). -/
+theorem C06_get_id_fresh (m : IdMan) (d : Int) (h : m.Inv) :
+    (m.get false d).1 ∉ m.used ∧ 0 < (m.get false d).1 :=
+  ⟨(get_false_spec m d h).1, (get_false_spec m d h).2.1⟩
+
 /-- Sub-structure forms of the same statement (each reader undoes its writer). -/
 theorem C06_entity_partial (mb w hidden : Bool) (groups : List Group) (e : Ent) (h : EntOK1 e)
     (hg : ∀ g ∈ groups, GroupOK g = true) :
@@ -196,6 +220,9 @@ example : (parseTree true (exportTree { minimal := true, multiblend := false, in
       (exportTree { minimal := true, multiblend := false, incVersion := false })
     = .ok (exportTree { minimal := true, multiblend := false, incVersion := true } exMap) :=
   C06_fixed_point_partial { minimal := true, multiblend := false, incVersion := true } exMap exMap_ok exMap_ids (by decide)
+
+example : IdsInjective (assignIds false { exMap with ents := [exEnt, exEnt, exEnt] }) :=
+  assignIds_injective _
 
 example : parseTree true (exportTree { minimal := false, multiblend := true, incVersion := true } exMap)
     = .ok (project { minimal := false, multiblend := true, incVersion := true } exMap) :=
